@@ -22,7 +22,7 @@ META = {
         "ptera.overlay.autotool", "ptera.probe.global_probes",
     ],
     "bounds": {"quick": {"history_length": "<= 5 operations over 7 kinds", "values": "each call argument an unbounded Int"},
-               "thorough": {"history_length": "<= 7", "values": "as quick"}},
+               "thorough": {"history_length": "<= 6", "values": "as quick"}},
     "out_of_scope": ["max/min/last of an empty window: no value is defined; only 'no value published' is asserted "
                      "(errors are routed to an on_error handler)", "asynchronous operators (sample, throttle, ...)",
                      "interpreter-exit completion of global probes (atexit)"],
@@ -200,7 +200,7 @@ def build(case):
 
 def cases(tier, seed):
     th = tier == "thorough"
-    n = 7 if th else 5
+    n = 6 if th else 5
     cs = []
     for first in (1, 2, 3, 4):
         for second in range(8):
